@@ -163,6 +163,26 @@ def newLists (E : Env) (cfg : Cfg) (R : Round) (s : St) (es : List Entry) : Acc 
   let a := (toInternal es).foldl (addRuleList E cfg R s.rl) ⟨fun _ => none, s.rlDisk⟩
   if cfg.keepInvalid then { a with new := es.foldl (keepPrev s.rl) a.new } else a
 
+/-! ### The order of the index entries
+
+`loadIndex` sorts the entries with `slices.SortStableFunc` by key before `toInternal`,
+`addRuleList` and `keepInvalidRuleLists` walk them.  `isort r` is the stable sort by a rank `r`
+(the place of an entry's key string in the order of `cmp.Compare`; null entries rank last): an entry
+moves in front of exactly those earlier entries whose rank is strictly greater.  `newLists` itself
+walks the document order; `Agd.Refresh.index_order_irrelevant` (Props/C13) proves that sorting
+first makes no difference, which is what every loop over the entries has to respect (no early
+exit, no dependence on what sorts before or after an entry). -/
+
+/-- Insert `x`, which precedes all of the list in the document, into the sorted list. -/
+def insertBy (r : Entry → Nat) (x : Entry) : List Entry → List Entry
+  | [] => [x]
+  | y :: ys => if r x ≤ r y then x :: y :: ys else y :: insertBy r x ys
+
+/-- Stable sort by rank. -/
+def isort (r : Entry → Nat) : List Entry → List Entry
+  | [] => []
+  | x :: xs => insertBy r x (isort r xs)
+
 /-- `Default.refresh`: the new state and whether it returned `nil`. -/
 def refreshStorage (E : Env) (cfg : Cfg) (s : St) (R : Round) : St × Bool :=
   let ir := refresh E cfg.idxMax R.acceptStale s.idxDisk R.idxFresh R.idxResp
